@@ -341,10 +341,14 @@ class RtrEngine(object):
                 w.violate("RT", "%s changed router entry %d, which is outside "
                           "the block allocated for it" % (label, i),
                           kind="other-entry-changed")
-            if now != old_entries[i] and i in inside and not (
-                    self.c.policy.active and self.c.policy.rates):
-                w.violate("RT", "%s changed router entry %d beyond the "
-                          "entries given" % (label, i),
+            if now != old_entries[i] and i in inside and found_at:
+                # (a retransmitted command rewrites the same indices; a
+                # leaked block of a repeated allocation stays empty - so even
+                # under faults nothing else may be written)
+                w.violate("RT", "%s wrote router entry %d, which is not one "
+                          "of the entries given (the table is installed at "
+                          "%d..%d)" % (label, i, found_at[0],
+                                       found_at[0] + len(want) - 1),
                           kind="extra-entry-written")
 
     def op_load(self, tables=None, heal=False):
